@@ -315,6 +315,8 @@ def h_text2nc(ctx):
         f = list(ai.fields)[(j * 3) % len(ai.fields)]
         ai.fields[f].pop(ai.positions()[j * 5 + 1], None)
     row_order = ctx.choose("row-order", ("natural", "reversed"), free=True)
+    # the variable's discrete-mass boundaries declared in the text header (0 is the usual lower boundary of precipitation)
+    ai.x0, ai.x1 = ctx.choose("x0-x1", ((None, None), (0.0, None), (None, 0.0), (0.0, 7.5), (2.5, None)), free=True)
     d = os.path.join(H.scratch(), "c10t2n")
     os.makedirs(d, exist_ok=True)
     pt = os.path.join(d, "t%d.txt" % os.getpid())
@@ -390,7 +392,14 @@ def h_text2nc(ctx):
     # and the converted file must be a valid verif input giving the same scores for what it carries
     kind2, inp2, site2, _ = H.quiet_call(verif.input.get_input, pn)
     ctx.require(kind2 == "ok" and type(inp2).__name__ == "Netcdf", "text2nc:output-not-a-valid-input", kind=kind2)
-    ctx.observe((tuple(present), nmiss, row_order))
+    kind1, inp1, _, _ = H.quiet_call(verif.input.get_input, pt)
+    if kind1 == "ok" and kind2 == "ok":
+        v1, v2 = inp1.variable, inp2.variable
+        ctx.require(v1.x0 == ai.x0 and v1.x1 == ai.x1, "text2nc:text-reader-x0-x1", expected=[ai.x0, ai.x1], actual=[v1.x0, v1.x1])
+        ctx.require((v2.x0, v2.x1) == (v1.x0, v1.x1), "text2nc:x0-x1-not-carried", expected=[v1.x0, v1.x1], actual=[v2.x0, v2.x1])
+        ctx.require(v2.name == v1.name and v2.units.replace("$", "") == v1.units.replace("$", ""), "text2nc:variable-metadata-not-carried",
+                    expected=[v1.name, v1.units], actual=[v2.name, v2.units])
+    ctx.observe((tuple(present), nmiss, row_order, ai.x0, ai.x1))
     ctx.outcome("n=%d" % len(present))
     ctx.nontrivial()
 
@@ -410,7 +419,7 @@ def run(tier, only=None):
         st = explore.explore(h, mode=mode, k=k, repo_root=core.REPO, time_cap=(300 if tier == "quick" else 3000))
         bound = {"optional": "full 2^9 subsets of optional variables x 2 time dtypes x attributes present/absent", "encodings": "dev(%s) over (field, cell) x 5 encodings" % k,
                  "agree": "dev(%s) over missing cells x 3 NetCDF encodings, x 2 text row orders" % k, "detect": "2 contents x 6 file names x 5 NetCDF on-disk formats (classic, 64-bit offset, CDF-5, NetCDF-4, NetCDF-4 classic)",
-                 "text2nc": "2^5 field subsets x 3 missing-cell variants x 2 row orders"}[name]
+                 "text2nc": "2^5 field subsets x 3 missing-cell variants x 2 row orders x 5 x0/x1 declarations"}[name]
         subs.append(core.Sub.from_e1(name, st, bound=bound, rule="one execution = one file (pair); every dimension, metadata item and cell compared", wall=time.time() - t0))
     return subs
 
